@@ -46,18 +46,22 @@ Fixpoint next_buffers (k : nat) (body_len : Z) (s : st) : ev * st :=
 
 (* ArrayDataBuilder::build / create_struct_array: when the node declares null_count > 0 the validity buffer is wrapped
    with BooleanBuffer::new(buffer, 0, len), which asserts len <= 8 * buffer length                -> PANIC *)
-Definition validity_ok (n : Z * Z) (vb : option (Z * Z)) : bool :=
-  if 0 <? snd n then
+(* create_primitive_array / create_list_array test `null_count > 0` on the i64; create_struct_array casts to usize first *)
+Definition validity_ok_gen (has_nulls : bool) (n : Z * Z) (vb : option (Z * Z)) : bool :=
+  if has_nulls then
     match vb with
     | Some b => as_usize (fst n) <=? Z.min (8 * as_usize (snd b)) (2^64 - 1)
     | None => true
     end
   else true.
-Definition finish (n : Z * Z) (vb : option (Z * Z)) (r : ev * st) : ev * st :=
+Definition validity_ok (n : Z * Z) (vb : option (Z * Z)) : bool := validity_ok_gen (0 <? snd n) n vb.
+Definition validity_ok_struct (n : Z * Z) (vb : option (Z * Z)) : bool := validity_ok_gen (0 <? as_usize (snd n)) n vb.
+Definition finish_gen (ok : bool) (r : ev * st) : ev * st :=
   match r with
-  | (Pass, s) => if validity_ok n vb then (Pass, s) else (ValidityPanic, s)
+  | (Pass, s) => if ok then (Pass, s) else (ValidityPanic, s)
   | e => e
   end.
+Definition finish (n : Z * Z) (vb : option (Z * Z)) (r : ev * st) : ev * st := finish_gen (validity_ok n vb) r.
 Definition first_buf (s : st) : option (Z * Z) := match bufs s with [] => None | b :: _ => Some b end.
 
 Fixpoint walk (t : fty) (body_len : Z) (s : st) : ev * st :=
@@ -81,7 +85,7 @@ Fixpoint walk (t : fty) (body_len : Z) (s : st) : ev * st :=
                  | r => r end end
   | FStruct cs => match next_node s with None => (CursorErr, s) | Some (n, s1) =>
                  match next_buffers 1 body_len s1 with
-                 | (Pass, s2) => finish n (first_buf s1) ((fix go (cs : list fty) (s : st) : ev * st :=
+                 | (Pass, s2) => finish_gen (validity_ok_struct n (first_buf s1)) ((fix go (cs : list fty) (s : st) : ev * st :=
                                     match cs with
                                     | [] => (Pass, s)
                                     | c :: r => match walk c body_len s with (Pass, s') => go r s' | e => e end
